@@ -113,7 +113,7 @@ def strat_fixed(tier):
     return st.fixed_dictionaries({'shape': st.one_of(st.tuples(ax, ax).map(list), ax.map(lambda k: [k, k])),
                                   'out': st.one_of(st.tuples(ax, ax).map(list), ax.map(lambda k: [k, k])),
                                   'Q': U.nice_float(0.4, 4).map(lambda v: round(v, 3)), 'shift': _shift(), 'phys': _phys(),
-                                  'which': st.sampled_from(['focus', 'focus-wavefront', 'unfocus']), 'seed': U.seeds})
+                                  'which': st.sampled_from(['focus', 'focus-wavefront', 'unfocus']), 'layout': U.layouts, 'seed': U.seeds})
 
 
 def check_fixed(case, ctx):
@@ -125,8 +125,8 @@ def check_fixed(case, ctx):
     lam, efl = ph['wvl'], ph['efl']
     if which == 'focus-wavefront':
         out = (out[0], out[0])
-    x = U.field(case['seed'], shape, 'complex', 1)
-    y = U.field(case['seed'], out, 'complex', 2)
+    x = U.relayout(U.field(case['seed'], shape, 'complex', 1), case.get('layout', 'C'))
+    y = U.relayout(U.field(case['seed'], out, 'complex', 2), case.get('layout', 'C'))
     if which.startswith('focus'):
         dx_in = ph['dx']
         dx_out = lam * efl / (shape[1] * dx_in * case['Q'])
@@ -164,7 +164,7 @@ def strat_fpm(tier):
         'same': st.booleans(),
         'Q': U.nice_float(0.4, 4).map(lambda v: round(v, 3)), 'shift': _shift(), 'phys': _phys(),
         'mkind': st.sampled_from(['real', 'complex', 'binary']), 'lyot': st.sampled_from(['none', 'real', 'complex']),
-        'which': st.sampled_from(['function', 'wavefront', 'wavefront-maskwf', 'babinet', 'babinet']), 'seed': U.seeds})
+        'which': st.sampled_from(['function', 'wavefront', 'wavefront-maskwf', 'babinet', 'babinet']), 'layout': U.layouts, 'seed': U.seeds})
 
 
 def check_fpm(case, ctx):
@@ -183,8 +183,9 @@ def check_fpm(case, ctx):
     else:
         m = r.uniform(0, 1, mshape) * np.exp(2j * np.pi * r.uniform(0, 1, mshape))
     fpm_dx = lam * efl / (shape[1] * dx * case['Q'])
-    x = U.field(case['seed'], shape, 'complex', 1)
-    y = U.field(case['seed'], shape, 'complex', 2)
+    x = U.relayout(U.field(case['seed'], shape, 'complex', 1), case.get('layout', 'C'))
+    y = U.relayout(U.field(case['seed'], shape, 'complex', 2), case.get('layout', 'C'))
+    m = U.relayout(m, case.get('layout', 'C'))
     sh = (case['shift'][0] * fpm_dx, case['shift'][1] * fpm_dx)
     if which.startswith('babinet'):
         sh = (0, 0)   # babinet has no shift argument
@@ -232,7 +233,7 @@ def strat_int(tier):
     nmax = {'quick': 10, 'thorough': 24}[tier]
     ax = U.axis_len(nmax)
     return st.fixed_dictionaries({'shape': st.tuples(ax, ax).map(list), 'wvl': st.sampled_from([0.5, 0.6328, 1.55]), 'opd': st.sampled_from([1.0, 30.0, 250.0]),
-                                  'chain': st.sampled_from(['intensity', 'phase', 'phase-through-dft']), 'nmodes': st.integers(1, 6), 'seed': U.seeds})
+                                  'chain': st.sampled_from(['intensity', 'phase', 'phase-through-dft']), 'nmodes': st.integers(1, 6), 'layout': U.layouts, 'seed': U.seeds})
 
 
 def check_int(case, ctx):
@@ -282,9 +283,13 @@ def check_int(case, ctx):
         directional_check(ctx, cost, phs, pbar, v, 'phase-retrieval-chain', 'c=sum w|DFT(A exp(ik phi))|^2 %s' % (shape,))
     # modal sums
     k = case['nmodes']
+    lay = case.get('layout', 'C')
+    ctx.label('layout:' + lay)
     modes = r.uniform(-1, 1, (k,) + shape)
+    if lay != 'C':
+        modes = np.stack([U.relayout(mm, lay) for mm in modes]) if lay == 'strided' else U.relayout(modes, lay)
     wts = r.uniform(-1, 1, k)
-    ybar = r.uniform(-1, 1, shape)
+    ybar = U.relayout(r.uniform(-1, 1, shape), lay)          # the upstream gradient may arrive Fortran-ordered / as a transposed or strided view
     Ax = ctx.call(poly.sum_of_2d_modes, modes, wts)
     AHy = ctx.call(poly.sum_of_2d_modes_backprop, modes, ybar)
     adjoint_check(ctx, Ax, wts, AHy, ybar, 'sum_of_2d_modes_backprop', '%d modes of shape %s' % (k, shape))
@@ -360,10 +365,10 @@ def check_soft(case, ctx):
 # ---- scalar activations -----------------------------------------------------------------------------------------------
 def strat_act(tier):
     return st.fixed_dictionaries({'node': st.sampled_from(['Tanh', 'Arctan', 'Softplus', 'Sigmoid']),
-                                  'a': st.one_of(st.just(1), U.nice_float(0.1, 5).map(lambda v: round(v, 3))),
+                                  'a': st.one_of(st.just(1), U.nice_float(0.1, 5).map(lambda v: round(v, 3)), st.sampled_from([-1, -3.5, 25, 50, 100, -80])),
                                   'x0': st.one_of(st.just(0), U.nice_float(-2, 2).map(lambda v: round(v, 3))),
                                   'y0': st.one_of(st.just(0), U.nice_float(-2, 2).map(lambda v: round(v, 3))),
-                                  'n': st.integers(1, 40), 'span': st.sampled_from([1.0, 3.0, 6.0]), 'late': st.booleans(), 'seed': U.seeds})
+                                  'n': st.integers(1, 40), 'span': st.sampled_from([1.0, 3.0, 6.0, 20.0, 800.0]), 'late': st.booleans(), 'seed': U.seeds})
 
 
 def check_act(case, ctx):
@@ -381,9 +386,26 @@ def check_act(case, ctx):
     x_in = x.copy()
     got = ctx.call(n.backprop, x_in)
     U.check_equal(x_in, x, case['node'] + '.backprop:mutates-input', 'backprop modified its argument')
-    h = 1e-30
-    want = np.imag(ctx.call(n.forward, x + 1j * h)) / h
-    U.check_close(got, want, 1e-10, case['node'] + '.backprop', '%s(a=%r,x0=%r,y0=%r) derivative' % (case['node'], case['a'], case['x0'], case['y0']), atol=1e-13)
+    u = case['a'] * (x - case['x0'])
+    with np.errstate(all='ignore'):
+        fwd = np.asarray(ctx.call(n.forward, x.copy()))
+    ok = np.isfinite(fwd)                       # where forward itself overflows (softplus of a huge argument) there is nothing to differentiate
+    extreme = bool(np.any(np.abs(u) > 300))
+    ctx.label('extreme-argument' if extreme else 'moderate-argument')
+    ctx.nt(extreme)
+    if not extreme:
+        h = 1e-30
+        want = np.imag(ctx.call(n.forward, x + 1j * h)) / h
+    else:
+        # overflow-safe closed forms of d forward/dx (the complex-step evaluation of forward overflows out here)
+        a_ = float(case['a'])
+        e = np.exp(-np.abs(u))
+        want = {'Tanh': lambda: a_ * 4 * e * e / (1 + e * e) ** 2, 'Arctan': lambda: a_ / (1 + u * u),
+                'Softplus': lambda: a_ * np.where(u >= 0, 1 / (1 + e), e / (1 + e)), 'Sigmoid': lambda: a_ * e / (1 + e) ** 2}[case['node']]()
+    ctx.require(bool(np.all(np.isfinite(np.asarray(got)[ok]))), case['node'] + '.backprop:non-finite',
+                '%s(a=%r,x0=%r).backprop is not finite where forward is (x in [%.4g, %.4g])' % (case['node'], case['a'], case['x0'], x.min(), x.max()))
+    U.check_close(np.asarray(got)[ok], np.asarray(want)[ok], 1e-10, case['node'] + '.backprop',
+                  '%s(a=%r,x0=%r,y0=%r) derivative' % (case['node'], case['a'], case['x0'], case['y0']), atol=1e-13 * max(1.0, abs(float(case['a']))))
 
 
 # ---- cost functions ---------------------------------------------------------------------------------------------------
@@ -474,7 +496,8 @@ def strat_dm(tier):
         'Nact': st.integers(2, 7), 'sep': st.integers(2, 5),
         'dNout': st.sampled_from([0, 0, 8, -8, 7, -7, 16, 1, -1]),
         'shift': st.one_of(st.just([0, 0]), st.tuples(U.nice_float(-3, 3), U.nice_float(-3, 3)).map(lambda t: [round(t[0], 2), round(t[1], 2)])),
-        'upsample': st.sampled_from([1, 1, 1, 0.5, 2, 1.5]), 'wfe': st.booleans(), 'width': st.sampled_from([1.0, 1.7, 2.5]), 'seed': U.seeds})
+        'upsample': st.sampled_from([1, 1, 1, 0.5, 2, 1.5, 0.7, 0.9, 1.26, 1.35]), 'wfe': st.booleans(), 'width': st.sampled_from([1.0, 1.7, 2.5]),
+        'layout': U.layouts, 'seed': U.seeds})
 
 
 def check_dm(case, ctx):
@@ -519,7 +542,7 @@ def check_dm(case, ctx):
     U.check_close(Rsum, 0.5 * Ra - 2.0 * Ra2, 0, 'DM.render:linearity', 'render is not linear in the actuators', atol=1e-10 * max(float(np.abs(Ra).max()), 1e-300))
     y = r.uniform(-1, 1, Ra.shape)
     render(a)
-    g = ctx.call(dm.render_backprop, y.copy(), wfe)
+    g = ctx.call(dm.render_backprop, U.relayout(y.copy(), case.get('layout', 'C')), wfe)
     adjoint_check(ctx, Ra, a, g, y, bucket, 'ifn %dx%d Nact=%d sep=%d Nout=%d shift=%r upsample=%g wfe=%r' % (n, n, Nact, sep, Nout, shift, ups, wfe), tol=1e-9)
 
 
